@@ -194,8 +194,23 @@ pub fn check(c: &Case, st: &mut Stats) -> CheckResult {
 pub fn run(ctx: &Ctx, rep: &mut Report) {
     rep.assume("signatures are produced by the library itself (try_*_with_rng with a replayed RNG) and judged by the library's verifier: a formatting defect shared by both sides shows up as an accepted alternative; C03 independently compares the bytes with the reference");
     run_generated(ctx, rep, "generated", ctx.n(3000, 40_000), strategy, check);
+    // very long messages (>= 64 KiB, >= 1 MiB): the same battery of alternatives
+    let mut long: Vec<Case> = Vec::new();
+    for (li, len) in crate::props::c03::LONG_MSG_LENS.iter().enumerate() {
+        if *len > (1 << 20) + 168 && ctx.quick() {
+            continue;
+        }
+        for mode in 0..4u8 {
+            if (li + mode as usize) % 2 == 1 && ctx.quick() && mode != 0 {
+                continue;
+            }
+            let s = crate::engine::hash_of(&(ctx.seed, "c06-long", len, mode));
+            long.push(Case { set: ((li + mode as usize) % 3) as u8, key: Seed32::Uniform(s % 3), msg: BytesSpec { len: *len, constant: None, seed: s }, ctx: BytesSpec { len: 1 + (s % 12) as u32, constant: None, seed: s ^ 1 }, mode, rnd: Seed32::Uniform(s ^ 2) });
+        }
+    }
+    crate::engine::run_list(rep, "long_messages", &long, check);
 }
 
 pub fn replay(_ctx: &Ctx, sub: &str, case: &Value) -> Option<CheckResult> {
-    (sub == "generated").then(|| check(&from_case::<Case>(case), &mut Stats::default()))
+    (sub == "generated" || sub == "long_messages").then(|| check(&from_case::<Case>(case), &mut Stats::default()))
 }
